@@ -303,11 +303,15 @@ def fractions_stream(rng, thorough, streams, viol, samples):
             if abs(sum(vals) - 1) > 4 * len(vals) * 2 ** -52:
                 bad_prop.append((c, f"{kind} fractions sum to {sum(vals)!r}"))
             for n, v, x in zip(keys, vals, ro_v):
-                if abs(v - x / tot) > 4 * 2 ** -52 * max(v, 1e-300):
+                # (the library's total is a plain left-to-right sum of NumPy scalars, this one is Python's compensated sum: allow n ulp)
+                if abs(v - x / tot) > (4 + len(vals)) * 2 ** -52 * v + 2.0 ** -1000:      # (absolute floor: quotients in the subnormal range carry no relative accuracy)
                     bad_prop.append((c, f"{kind} fraction of {n} is not its share"))
                     break
             # scaling by a power of two is exact
-            if isinstance(r["fr_scaled"][kind], dict) and r["fr_scaled"][kind] != fr[kind]:
+            # (only while every scaled read-out stays a normal double: in the subnormal range a power of two no longer scales exactly)
+            sc = float.fromhex(c["scale"])
+            in_range = all(x == 0 or (abs(x) >= 2.0 ** -1000 and abs(x * sc) >= 2.0 ** -1000) for x in ro_v)
+            if in_range and isinstance(r["fr_scaled"][kind], dict) and r["fr_scaled"][kind] != fr[kind]:
                 sv = [float.fromhex(r["fr_scaled"][kind][n]) for n in keys]
                 if any(abs(a - b) > 8 * 2 ** -52 * max(abs(b), 1e-300) for a, b in zip(sv, vals)):
                     bad_prop.append((c, f"{kind} fractions change under scaling"))
